@@ -11,6 +11,8 @@ ID = "C15"
 CASE_TIMEOUT = 10
 THEOREMS = ["C15_scan", "C15_scan_expression", "C15_parse", "C15_lookup", "C15_ips_writer", "C15_ips_reader",
             "C15_to_bytes", "C15_to_text", "C15_assemble", "C15_codegen", "C15_passes"]
+# model-tie modules whose correspondence is part of this property's check (parts of the model its theorems rest on)
+TIES = ['E2E']
 RULE = ("every sequence of length <= 2 (quick; <= 3 thorough) over a 46-fragment alphabet (mnemonics, directives, "
         "brackets, quotes, comment openers, operators, numbers, labels, a non-ASCII letter, NUL), joined with and without "
         "spaces; random longer soups; every single-line deletion / duplication / truncation of valid generated programs; "
